@@ -1,5 +1,5 @@
-\* C09 thorough tier: every schedule with domain 8..256, 8 cases per applicable class, + real-field cases.
+\* C09 thorough tier: every schedule with domain 8..256, 16 cases per applicable class, + real-field cases.
 SPECIFICATION Spec
-CONSTANTS MinLogN = 3  MaxLogN = 8  Variants = 8  NReal = 2400  RealMaxLogN = 12
+CONSTANTS MinLogN = 3  MaxLogN = 8  Variants = 16  NReal = 4000  RealMaxLogN = 12
 ACTION_CONSTRAINT Emit
 CHECK_DEADLOCK FALSE
